@@ -43,7 +43,8 @@ CONSTANTS Threads,      \* API callers (positive integers)
           Resend,       \* BOOLEAN: direct announcements are re-published on the topic (and come back to the watcher)
           Cancels,      \* BOOLEAN: the context of a Direct / Next call may be cancelled while the call is under way
           Reentrant,    \* BOOLEAN: operation "directRe" (the allow-peer callback calls UncacheCid)
-          ALLOWPOS      \* "before" (the code) | "under": where the allow-peer callback runs relative to the mutex
+          ALLOWPOS,     \* "before" (the code) | "under": where the allow-peer callback runs relative to the mutex
+          CANCELWATCH   \* "before" (the code: Close cancels the watcher's context, then waits for the watcher) | "deferred" (cancelled when Close returns)
 W == 0 - 1              \* the watcher's identity as a mutex holder
 Ops == {"close", "directOk", "directNo", "next", "uncache"} \cup (IF Reentrant THEN {"directRe"} ELSE {})
 Directs == {"directOk", "directRe"}
@@ -99,11 +100,11 @@ C1(t) == /\ pcs[t] = "c1" /\ Same
          /\ UNCHANGED <<done, out, wvars, watchCancelled, watchDone>>
 C2(t) == /\ pcs[t] = "c2" /\ mutex' = (IF UNLOCK = "code" THEN 0 ELSE mutex) /\ Goto(t, "c3") /\ Same
          /\ UNCHANGED <<closed, done, out, wvars, subCancelled, watchCancelled, watchDone>>
-C3(t) == /\ pcs[t] = "c3" /\ done' = TRUE /\ Goto(t, IF Watcher THEN "c4" ELSE "cret") /\ Same
+C3(t) == /\ pcs[t] = "c3" /\ done' = TRUE /\ Goto(t, IF Watcher THEN (IF CANCELWATCH = "before" THEN "c4" ELSE "c5") ELSE "cret") /\ Same
          /\ UNCHANGED <<mutex, closed, out, wvars, subCancelled, watchCancelled, watchDone>>
-C4(t) == /\ pcs[t] = "c4" /\ watchCancelled' = TRUE /\ Goto(t, "c5") /\ Same
+C4(t) == /\ pcs[t] = "c4" /\ watchCancelled' = TRUE /\ Goto(t, IF CANCELWATCH = "before" THEN "c5" ELSE "cret") /\ Same
          /\ UNCHANGED <<mutex, closed, done, out, wvars, subCancelled, watchDone>>
-C5(t) == /\ pcs[t] = "c5" /\ watchDone /\ Goto(t, "cret") /\ Same
+C5(t) == /\ pcs[t] = "c5" /\ watchDone /\ Goto(t, IF CANCELWATCH = "before" THEN "cret" ELSE "c4") /\ Same
          /\ UNCHANGED <<mutex, closed, done, out, wvars, subCancelled, watchCancelled, watchDone>>
 CRet(t) == /\ pcs[t] = "cret" /\ Return(t, "nil") /\ Same
            /\ mutex' = IF UNLOCK = "deferred" /\ mutex = t THEN 0 ELSE mutex      \* a deferred Unlock runs at return
@@ -163,11 +164,16 @@ WGoto(l) == wpc' = l
 (* a message is published on the topic (environment) *)
 Publish == /\ Watcher /\ ~Resend /\ published < MaxMsgs /\ published' = published + 1 /\ msgs' = msgs + 1 /\ TU
            /\ UNCHANGED <<mutex, closed, done, out, wpc, restarts, subCancelled, watchCancelled, watchDone>>
+(* The topic is the application's (WithTopic) and the application shuts its pubsub down: nothing is delivered any more, and
+   cancelling the subscription no longer wakes the watcher -- only its own context does.  published = MaxMsgs + 1 stands for that. *)
+PsDead == published = MaxMsgs + 1
+PsStop == /\ Watcher /\ ~Resend /\ ~PsDead /\ msgs = 0 /\ published' = MaxMsgs + 1 /\ TU
+          /\ UNCHANGED <<mutex, closed, done, out, wpc, msgs, restarts, subCancelled, watchCancelled, watchDone>>
 WLoop == /\ wpc \in {"loop", "gotno", "dup", "sent"} /\ WGoto("next") /\ TU       \* gotno: undecodable, re-published by this host, or peer not allowed
          /\ UNCHANGED <<mutex, closed, done, out, msgs, published, restarts, subCancelled, watchCancelled, watchDone>>
 WMsg == /\ wpc = "next" /\ msgs > 0 /\ msgs' = msgs - 1 /\ (WGoto("got") \/ WGoto("gotno")) /\ TU     \* from an allowed peer, or not
         /\ UNCHANGED <<mutex, closed, done, out, published, restarts, subCancelled, watchCancelled, watchDone>>
-WNextExit == /\ wpc = "next" /\ (subCancelled \/ watchCancelled) /\ WGoto("done") /\ watchDone' = TRUE /\ TU
+WNextExit == /\ wpc = "next" /\ ((subCancelled /\ ~PsDead) \/ watchCancelled) /\ WGoto("done") /\ watchDone' = TRUE /\ TU
              /\ UNCHANGED <<mutex, closed, done, out, msgs, published, restarts, subCancelled, watchCancelled>>
 WErr == /\ wpc = "next" /\ restarts < MaxRestarts /\ restarts' = restarts + 1 /\ WGoto("r1") /\ TU
         /\ UNCHANGED <<mutex, closed, done, out, msgs, published, subCancelled, watchCancelled, watchDone>>
@@ -192,7 +198,7 @@ WRestart == /\ wpc = "r2" /\ mutex' = 0 /\ subCancelled' = FALSE /\ WGoto("loop"
 WStep == WLoop \/ WMsg \/ WNextExit \/ WErr \/ WLock("got", "check") \/ WCheck \/ WSend \/ WSel
          \/ WClosedExit \/ WLock("r1", "r2") \/ WRestart
 
-Next == (\E t \in Threads : Step(t)) \/ WStep \/ Publish \/ (\E t \in Threads : Cancel(t))     \* no fairness for the environment
+Next == (\E t \in Threads : Step(t)) \/ WStep \/ Publish \/ PsStop \/ (\E t \in Threads : Cancel(t))     \* no fairness for the environment
 Spec == Init /\ [][Next]_vars /\ (\A t \in Threads : WF_vars(Step(t))) /\ WF_vars(WStep)
 (* any number of calls per thread: a thread waiting for the mutex must not be overtaken for ever (Go's mutex has a
    starvation mode), hence strong fairness                                                                     *)
